@@ -72,9 +72,14 @@ def fsolve_contract(h, n=1, mode="exact", max_iter=2):
     h.holds("returned residual is one of the evaluated residuals", f_last is not None)
     if f_last is None:
         return
-    crit = sum((f_last[i] / scale[i]) * (f_last[i] / scale[i]) for i in range(n)) < n
+    # criterion ||f/scale|| / sqrt(n) < 1; the code divides by the double sqrt(n): a relative band of 1e-12 around the
+    # threshold is left undecided (rounding of sqrt(n)), everything else is decided exactly
+    ssum = sum((f_last[i] / scale[i]) * (f_last[i] / scale[i]) for i in range(n))
     succ = bool(res.success)
-    h.holds("success reported iff the scaled residual criterion holds at the returned point", crit if succ else ~crit if h.sym else (bool(crit) == succ))
+    if succ:
+        h.holds("success reported only if the scaled residual criterion holds at the returned point", ssum < n * (1 + 1e-12))
+    else:
+        h.holds("failure reported only if the scaled residual criterion is missed at the returned point", ssum > n * (1 - 1e-12))
     h.eq("returned residual was evaluated at the returned point", x_last, res.x)
     warned = any("not converged" in w for w in cap["warnings"])
     h.holds("warns iff not converged", warned == (not succ))
@@ -103,18 +108,16 @@ def fixed_point_contract(h, n=1, which="plain", max_iter=2):
             sc_i = atol + m * rtol
             d = (fa[i] - xa[i]) / sc_i
             s = s + d * d
-        return s < n
+        return s
     if raised is None:
         xa, fa = sc.calls[-1]
         h.eq("returns the last iterate of the map", x, fa)
-        c = crit(xa, fa)
-        h.holds("returned point meets the absolute/relative tolerance it was given", c)
+        h.holds("returned point meets the absolute/relative tolerance it was given", crit(xa, fa) < n * (1 + 1e-12))
         h.holds("iteration count reported", int(nit) == len(sc.calls))
     else:
         h.holds("raises only after exhausting the iteration limit", len(sc.calls) == max_iter)
         xa, fa = sc.calls[-1]
-        c = crit(xa, fa)
-        h.holds("raises only when the last iterate misses the tolerance", ~c if h.sym else (not c))
+        h.holds("raises only when the last iterate misses the tolerance", crit(xa, fa) > n * (1 - 1e-12))
 
 
 def fprime(h, kind="quadratic", method="3-point"):
